@@ -12,6 +12,12 @@ for sid in ids:
         res = json.loads(p.stdout[p.stdout.index("{"):])
     except Exception as e:  # noqa: BLE001
         res = {"id": sid, "error": str(e), "stdout": p.stdout[-500:], "stderr": p.stderr[-500:]}
+    # keep the confirmation fields (demo exit codes, test run) of an earlier --confirm pass
+    if os.path.exists(f"{d}/result.json"):
+        old = json.load(open(f"{d}/result.json"))
+        for k in ("demo_without_change", "demo_with_change", "tests_rc", "tests_tail"):
+            if k not in res and k in old:
+                res[k] = old[k]
     json.dump(res, open(f"{d}/result.json", "w"), indent=1)
     c = list(res.get("checks", {}).values())
     rows.append((sid, [ (k, v["rc"]) for k, v in res.get("checks", {}).items()]))
